@@ -164,6 +164,9 @@ def _get_attribute_docstring(dataclass: type, field_name: str) -> AttributeDocSt
                 docstring_below,
                 desc_from_cls_docstring=desc_from_cls_docstring,
             )
+    if desc_from_cls_docstring:
+        # The field is not (re-)declared in this class, but the class docstring documents it.
+        return AttributeDocString(desc_from_cls_docstring=desc_from_cls_docstring)
     return None
 
 
